@@ -32,6 +32,7 @@ def mark(unit):
         else:
             b = seg[1]
             real, _ = extract.real_item_text(b)
+            real = extract.normalise(u, real)
             marked = extract.annotate(real, '\n'.join(b['lines']))
             out.append(b['header'])
             out.extend(marked.split('\n'))
@@ -71,3 +72,23 @@ if __name__ == '__main__':
         print(json.dumps(rep, indent=1))
     elif cmd == 'verus':
         sys.exit(subprocess.call(verus_cmd(sys.argv[2], sys.argv[3:])))
+
+
+def normalise_work(unit):
+    """Re-apply the unit's mechanical rewrites to every block of build/work/<unit>.rs (idempotent)."""
+    src = os.path.join(ROOT, 'build', 'work', unit + '.rs')
+    u = extract.parse_unit(src)
+    out = []
+    for seg in u['segments']:
+        if seg[0] == 'text':
+            out.extend(seg[1])
+        else:
+            b = seg[1]
+            out.append(b['header'])
+            out.extend(extract.normalise(u, '\n'.join(b['lines'])).split('\n'))
+            out.append(b['footer'])
+    open(src, 'w', encoding='utf-8').write('\n'.join(out))
+
+
+if __name__ == '__main__' and sys.argv[1] == 'norm':
+    normalise_work(sys.argv[2])
